@@ -29,6 +29,9 @@
 (*                                is unwound (no catch, no finally), the       *)
 (*                                effects made so far stand, the runtime is at *)
 (*                                rest and every later action finds it so      *)
+(*   [op "nudge", r, p, k]        the same, but the function sent RETURNS: it  *)
+(*                                is invoked once during the run, which goes   *)
+(*                                on to its end as if nothing had been sent    *)
 (*   [op "limit", r, lim]         vm.SetStackDepthLimit(lim): part of the      *)
 (*                                runtime (kept by Copy, not by New)           *)
 (* Every action is ONE application of S!RunOn (or none): the Go-side calls    *)
@@ -99,7 +102,7 @@ GetProg(nm) == <<[k |-> "expr", e |-> [k |-> "dot", o |-> [k |-> "this"], n |-> 
 CallProg(nm, args) == <<[k |-> "expr", e |-> [k |-> "call", f |-> IdN(nm), args |-> [i \in 1..Len(args) |-> Lit(args[i])]]]>>
 
 ProgOf(a) == CASE a.op \in {"run", "hostpanic"} -> Progs[a.p]
-               [] a.op = "interrupt" -> SpinProgs[a.p]
+               [] a.op \in {"interrupt", "nudge"} -> SpinProgs[a.p]
                [] a.op = "set" -> SetProg(a.nm, a.val)
                [] a.op = "get" -> GetProg(a.nm)
                [] a.op = "call" -> CallProg(a.nm, a.args)
@@ -158,7 +161,8 @@ Acts ==
                    \cup {[op |-> "limit", r |-> r, lim |-> l] : r \in R, l \in Limits}
               ELSE {})
         \cup (IF d >= IntFrom
-              THEN {[op |-> "interrupt", r |-> r, p |-> p, k |-> k, route |-> rt] :      \* k <= SpinCalls[p] below
+              THEN {[op |-> "nudge", r |-> r, p |-> p, k |-> 1] : r \in R, p \in 1..Len(SpinProgs)} \cup
+                   {[op |-> "interrupt", r |-> r, p |-> p, k |-> k, route |-> rt] :      \* k <= SpinCalls[p] below
                         r \in R, p \in 1..Len(SpinProgs), k \in 1..3, rt \in {"source", "eval"}}      \* (both entry points from the first step on)
               ELSE {})
 
